@@ -49,9 +49,13 @@ type options struct {
 type Option func(options *options) error
 
 // WithElectionTimeout sets the election timeout for raft.
-func WithElectionTimeout(time time.Duration) Option {
+func WithElectionTimeout(timeout time.Duration) Option {
 	return func(options *options) error {
-		options.electionTimeout = time
+		// The election timer works with whole milliseconds.
+		if timeout != 0 && timeout < time.Millisecond {
+			return errors.New("election timeout must be at least one millisecond")
+		}
+		options.electionTimeout = timeout
 		return nil
 	}
 }
